@@ -227,6 +227,46 @@ func (v *PCView) Implies(b *ssa.BasicBlock, r *Formula) (bool, []string) {
 	return ok, v.Literals(b)
 }
 
+// ViewAll is a view over every atom of the function (and of r), so that no branch condition is
+// projected away; nil when there are too many. Paths start at 'from' (nil: function entry).
+func (fi *FuncInfo) ViewAll(r *Formula, from *ssa.BasicBlock) *PCView {
+	keep := map[string]bool{}
+	r.collect(keep)
+	for _, a := range fi.AllAtoms() {
+		keep[a] = true
+	}
+	var atoms []string
+	for a := range keep {
+		atoms = append(atoms, a)
+	}
+	sort.Strings(atoms)
+	if len(atoms) > 20 {
+		return nil
+	}
+	v := fi.viewOf(atoms)
+	v.from = from
+	v.cut = map[int]bool{}
+	return v
+}
+
+// ImpliedBy decides r ⇒ PC(b): whenever r holds (at the view's starting point), b is reached.
+// Sound only for acyclic regions between the starting point and b (back edges are not followed).
+func (v *PCView) ImpliedBy(b *ssa.BasicBlock, r *Formula) bool {
+	pc := v.Block(b)
+	rt := v.tableOf(r)
+	if v.from != nil {
+		rt = rt.and(v.axioms)
+	} else {
+		rt = rt.and(v.entry)
+	}
+	for i := range rt {
+		if rt[i]&^pc[i] != 0 {
+			return false
+		}
+	}
+	return true
+}
+
 // Literals lists the atoms (or negations) of the view that hold on every path to b.
 func (v *PCView) Literals(b *ssa.BasicBlock) []string {
 	pc := v.Block(b)
